@@ -331,6 +331,12 @@ def run_property(prop, tier='quick', seed=0, budget=None, only=None, jobs=None, 
         'wall_s': round(wall, 1),
         'violations': len(violations),
     }
+    try:
+        os.makedirs(os.path.join(ROOT, '.work'), exist_ok=True)
+        json.dump({k: {kk: r.get(kk) for kk in ('status', 'paths', 'job_wall_s', 'detail', 'solver_s', 'cex')} for k, r in results.items()},
+                  open(os.path.join(ROOT, '.work', prop + '.results.json'), 'w'), indent=0)
+    except Exception:
+        pass
     os.makedirs(EVID, exist_ok=True)
     json.dump(evidence, open(os.path.join(EVID, prop + '.json'), 'w'), indent=1)
     say('SUMMARY property=%s tier=%s obligations=%d discharged=%d inconclusive=%d not_run=%d violations=%d '
